@@ -270,6 +270,7 @@ def run_case(case):
                 res.violation("not-submitted", "target %s was not submitted" % t["name"])
                 continue
             res.mon("scripts_checked")
+            res.obs("script:" + t["name"], job["script"][:1500])
             opts, unknown = resolve_options(sched, case["wf_defaults"], t["topts"], t["kopts"])
             exp = expected_directives(sched, opts)
             obs = observed_directives(sched, job)
@@ -308,6 +309,7 @@ def run_case(case):
             sim.start(job["id"])
             info = sim.finish(job["id"], real=True)
             res.mon("scripts_executed")
+            res.obs("exec:" + t["name"], {"wd": t["wd_name"], "rc": info["rc"], "reference_rc": ref_rc, "stdout_log": info["out"]})
             outp, errp = info["out"], info["err"]
 
             def rd(p):
